@@ -155,7 +155,18 @@ return __RET
     else:
         # the same folds built in one comprehension
         b = find(f.node, 'return [EstimationValidation(estimation=pd.concat(_SL[:_I] + _SL[_I + 1:]), validation=_V) for _I, _V in enumerate(_SL)]')
-    ctx.add('C13.R3', 'Database.split:folds', b is not None, f, 'estimation part i = all slices but i, validation part = slice i, paired fold by fold' if b is not None else 'construction or pairing of the folds changed', 'folds')
+    bylabel = None
+    if b is None:
+        # positive: the estimation part is obtained by taking the rows of the validation part away from the table BY INDEX LABEL
+        bylabel = _estimation_by_label(f.node)
+    if bylabel:
+        node, what, table, val = bylabel
+        ctx.add('C13.R3', 'Database.split:folds', False, (f.file, node.lineno), f'the estimation part of a fold is `{unparse(node)[:90]}`: {what} - the rows of the validation part `{val}` are taken away from {table} by index LABEL, '
+                f'not by row. The row index of a Database need not be unique (a bootstrap sample from sample_with_replacement, extract_rows with a repeated position keep the labels of the rows they copy), and then '
+                f'every row of the other slices that carries a label also present in `{val}` is dropped too: the estimation part is smaller than the complement of the validation part. It must be built from the other slices '
+                f'(pd.concat of all slices but i)', 'folds', positive=True)
+    else:
+        ctx.add('C13.R3', 'Database.split:folds', b is not None, f, 'estimation part i = all slices but i, validation part = slice i, paired fold by fold' if b is not None else 'construction or pairing of the folds changed', 'folds')
     sl = b['_SL'] if b else '_SL'
     ok = has(f.node, f"""
 if groups is None:
@@ -211,6 +222,133 @@ else:
                             f'a call without `groups` reaches `if groups is None:` with None, shuffles single rows and separates the observations of one individual')
     ctx.add('C13.R3', 'Database.split:panel', ok if (ok or narrowed) else None, f, 'on panel data the rows of one individual are never separated (groups = panel column whenever is_panel())' if ok else
             (narrowed or 'the way the panel column becomes the grouping column is not in the expected form'), 'panel', positive=bool(narrowed))
+
+
+def _elements_of(fn, seq_: ast.expr):
+    """the expression every element of the list `seq_` (a name bound once in fn) is computed by, with the comprehension / loop it
+    stands in; None when the list is not built in a form understood here"""
+    def comp(v):
+        if isinstance(v, ast.Call) and call_name(v) == 'list' and len(v.args) == 1 and not v.keywords and isinstance(v.args[0], (ast.ListComp, ast.GeneratorExp)):
+            v = v.args[0]
+        return v.elt if isinstance(v, (ast.ListComp, ast.GeneratorExp)) else None
+    if comp(seq_) is not None:
+        return comp(seq_)
+    if not isinstance(seq_, ast.Name):
+        return None
+    binds = [a for a in walk_no_nested(fn) if isinstance(a, (ast.Assign, ast.AugAssign, ast.AnnAssign)) and any(isinstance(x, ast.Name) and x.id == seq_.id and isinstance(x.ctx, ast.Store) for x in ast.walk(a))]
+    if len(binds) != 1 or not isinstance(binds[0], ast.Assign) or len(binds[0].targets) != 1 or not isinstance(binds[0].targets[0], ast.Name):
+        return None
+    v = binds[0].value
+    if comp(v) is not None:
+        return comp(v)
+    if isinstance(v, ast.List) and not v.elts:
+        # filled by exactly one `.append(X)`; no other use of the name as a receiver
+        uses = [c for c in walk_no_nested(fn) if isinstance(c, ast.Call) and isinstance(c.func, ast.Attribute) and isinstance(c.func.value, ast.Name) and c.func.value.id == seq_.id]
+        if len(uses) == 1 and uses[0].func.attr == 'append' and len(uses[0].args) == 1 and not uses[0].keywords:
+            return uses[0].args[0]
+    return None
+
+
+def _estimation_by_label(fn):
+    """(expression, what it is, table, validation name) when the value given as `estimation` to EstimationValidation is the table with the
+    rows of a per-fold frame V removed through V's index labels (`T.drop(index=V.index)`, `T[~T.index.isin(V.index)]`,
+    `T.loc[T.index.difference(V.index)]`), T being self.data (a shuffle / copy of it); None in every other case"""
+    txt = unparse(fn)
+    if any(w in txt for w in ('reset_index', 'set_index', 'ignore_index', 'reindex', 'drop_duplicates', 'is_unique')):
+        return None  # the labels may have been made unique: not judged
+    if any(isinstance(x, ast.Attribute) and x.attr == 'index' and isinstance(x.ctx, ast.Store) for x in walk_no_nested(fn)):
+        return None
+    # names bound per fold: targets of the loops / comprehensions of the function
+    per_fold = set()
+    for n in walk_no_nested(fn):
+        tg = [n.target] if isinstance(n, ast.For) else [g.target for g in n.generators] if isinstance(n, (ast.ListComp, ast.GeneratorExp)) else []
+        per_fold |= {x.id for t in tg for x in ast.walk(t) if isinstance(x, ast.Name)}
+    calls = [c for c in walk_no_nested(fn) if isinstance(c, ast.Call) and call_name(c) == 'EstimationValidation']
+    if not calls:
+        return None
+    for c in calls:
+        est = next((k.value for k in c.keywords if k.arg == 'estimation'), c.args[0] if c.args and not isinstance(c.args[0], ast.Starred) else None)
+        if est is None:
+            return None
+        if isinstance(est, ast.Name) and est.id in per_fold:
+            # element of a list: `for e, v in zip(EST, VAL)` / `for e in EST`
+            holder = [n for n in walk_no_nested(fn) if isinstance(n, (ast.ListComp, ast.GeneratorExp)) and any(x is c for x in ast.walk(n.elt))
+                      or isinstance(n, ast.For) and any(x is c for st in n.body for x in ast.walk(st))]
+            gens = [(g.target, g.iter) for h in holder for g in (h.generators if not isinstance(h, ast.For) else [h])]
+            src = None
+            for tgt, it in gens:
+                if isinstance(tgt, ast.Name) and tgt.id == est.id:
+                    src = it
+                elif isinstance(tgt, ast.Tuple) and isinstance(it, ast.Call) and call_name(it) == 'zip' and not it.keywords and len(it.args) == len(tgt.elts) \
+                        and not any(isinstance(a, ast.Starred) for a in it.args):
+                    for t_, a_ in zip(tgt.elts, it.args):
+                        if isinstance(t_, ast.Name) and t_.id == est.id:
+                            src = a_
+            est = _elements_of(fn, src) if src is not None else None
+            if est is None:
+                return None
+        hit = _label_complement(fn, est, per_fold)
+        if hit:
+            return hit
+    return None
+
+
+def _root_table(fn, e: ast.expr):
+    """'self.data' when e is self.data, a shuffle (`.sample(...)`) or a copy of it, possibly through locals bound once"""
+    e = _frame(fn, e)
+    while isinstance(e, ast.Call) and isinstance(e.func, ast.Attribute) and e.func.attr in ('sample', 'copy'):
+        e = _frame(fn, e.func.value)
+    return unparse(e) if unparse(e) == 'self.data' else None
+
+
+def _index_of(e: ast.expr, per_fold):
+    """V when e is `V.index` (`.tolist()`, `.values`, `list(...)`, `set(...)` of it), V a per-fold name"""
+    while True:
+        if isinstance(e, ast.Call) and isinstance(e.func, ast.Attribute) and e.func.attr in ('tolist', 'to_list', 'to_numpy', 'unique') and not e.args:
+            e = e.func.value
+        elif isinstance(e, ast.Call) and call_name(e) in ('list', 'set', 'tuple') and len(e.args) == 1 and not e.keywords:
+            e = e.args[0]
+        elif isinstance(e, ast.Attribute) and e.attr == 'values':
+            e = e.value
+        else:
+            break
+    if isinstance(e, ast.Attribute) and e.attr == 'index' and isinstance(e.value, ast.Name) and e.value.id in per_fold:
+        return e.value.id
+    return None
+
+
+def _label_complement(fn, e: ast.expr, per_fold):
+    # T.drop(V.index) / T.drop(index=V.index) / T.drop(labels=V.index[, axis=0])
+    if isinstance(e, ast.Call) and isinstance(e.func, ast.Attribute) and e.func.attr == 'drop':
+        kw = {k.arg: k.value for k in e.keywords}
+        lab = e.args[0] if len(e.args) == 1 else kw.get('index', kw.get('labels')) if not e.args else None
+        axis = unparse(kw['axis']) if 'axis' in kw else '0'
+        if lab is not None and 'columns' not in kw and None not in kw and axis in ('0', "'index'", "'rows'") and unparse(kw.get('inplace', ast.Constant(False))) == 'False':
+            v, t = _index_of(lab, per_fold), _root_table(fn, e.func.value)
+            if v and t:
+                return e, 'DataFrame.drop removes every row whose label is listed', t, v
+        return None
+    # T[mask] / T.loc[mask] with mask = ~T.index.isin(V.index), or T.loc[T.index.difference(V.index)]
+    if isinstance(e, ast.Subscript):
+        tab = e.value.value if isinstance(e.value, ast.Attribute) and e.value.attr == 'loc' else e.value
+        rows = e.slice.elts[0] if isinstance(e.slice, ast.Tuple) and e.slice.elts else e.slice
+        t = _root_table(fn, tab)
+        if not t:
+            return None
+        if isinstance(rows, ast.UnaryOp) and isinstance(rows.op, ast.Invert):
+            m = rows.operand
+            if isinstance(m, ast.Call) and isinstance(m.func, ast.Attribute) and m.func.attr == 'isin' and len(m.args) == 1 and not m.keywords \
+                    and isinstance(m.func.value, ast.Attribute) and m.func.value.attr == 'index' and _root_table(fn, m.func.value.value):
+                v = _index_of(m.args[0], per_fold)
+                if v:
+                    return e, 'the mask keeps a row only if its label does not occur in the validation part', t, v
+        if isinstance(rows, ast.Call) and isinstance(rows.func, ast.Attribute) and rows.func.attr == 'difference' and len(rows.args) == 1 \
+                and isinstance(rows.func.value, ast.Attribute) and rows.func.value.attr == 'index' and _root_table(fn, rows.func.value.value) \
+                and isinstance(e.value, ast.Attribute) and e.value.attr == 'loc':
+            v = _index_of(rows.args[0], per_fold)
+            if v:
+                return e, 'Index.difference keeps a label only if it does not occur in the validation part', t, v
+    return None
 
 
 #: tables of a Database that are NOT kept in step with self.data by remove / add_column / scale_column / panel: what they hold
